@@ -433,6 +433,15 @@ where
         let known = Arc::new(load_known(self.id));
         let body = std::fs::read_to_string(path).expect("read replay file");
         let rf: ReplayFile = serde_json::from_str(&body).expect("parse replay file");
+        if rf.case.get("enumeration").is_some() {
+            // A failure of the enumeration phase: re-run the whole enumeration.
+            let mut cx = new_cx(tier, &known, true);
+            let en = self.enumerate.expect("property has an enumeration phase");
+            let r = std::panic::catch_unwind(std::panic::AssertUnwindSafe(|| en(tier, 0, 1, &mut cx)))
+                .unwrap_or_else(|p| Err(Failure::new(format!("{}/harness-panic", self.id), crate::ops::panic_message(&p))));
+            cleanup_case_dir(&cx.scratch);
+            return CaseResultReport { result: r, known_hits: cx.known_hits };
+        }
         let case: C = serde_json::from_value(rf.case).expect("decode case");
         let only = if rf.inner.is_null() { None } else { Some(rf.inner) };
         let (r, cx) = self.run_one(&case, tier, &known, true, only, None);
